@@ -1,5 +1,7 @@
 """phqv command line: check <id> [--tier quick|thorough] | replay <case.json> | selftest"""
 import sys, os, json, importlib
+if hasattr(sys, 'set_int_max_str_digits'):
+    sys.set_int_max_str_digits(0)
 
 
 def main(argv):
